@@ -33,6 +33,8 @@ type Runner struct {
 	siteRec  []int // sites inside _recover: outer, stack loop, inner
 	// ActHook, if non-nil, is installed for the run.
 	ActHook func(p ctypes.Parser, n *ctypes.Node)
+	// NilRes, if non-nil, selects the productions whose generic action returns nil.
+	NilRes func(prod int32) bool
 }
 
 const fastBudget = 3000   // main-loop + recover ticks before switching to diagnosis
@@ -118,6 +120,7 @@ func (r *Runner) run(toks []int, diagnose bool) (out *Outcome) {
 	}
 
 	r.C.SetActHook(r.ActHook)
+	r.C.SetNilRes(r.NilRes)
 	r.C.SetTick(func(site int) {
 		ticks++
 		if site == r.siteMain {
@@ -195,6 +198,7 @@ func (r *Runner) run(toks []int, diagnose bool) (out *Outcome) {
 	defer func() {
 		r.C.SetTick(nil)
 		r.C.SetActHook(nil)
+		r.C.SetNilRes(nil)
 		out.Reads = lex.Reads
 		out.Events = p.Events()
 		if x := recover(); x != nil {
